@@ -21,7 +21,10 @@ def run(ctx):
     require_guard(ctx, f, Cmp(["call:*DataAvailabilityHeader::from_eds", "call:*ExtendedDataSquare::from_ods", "a1", "a4"], ["a3"], pass_op="Eq", name="from_eds(from_ods(payload, app_version)) == dah"), "C09.dah")
     require_guard(ctx, f, Has("call:*ExtendedDataSquare::from_ods", "a1", "a4", name="?from_ods(payload chunks, app_version)"), "C09.from_ods")
     require_guard(ctx, f, Has("len:a1", name="empty payload rejected"), "C09.empty")
-    require_guard(ctx, f, Has("len:a1", "const:*SHARE_SIZE", ["call:*is_multiple_of", "call:*Rem::rem"], name="payload length multiple of SHARE_SIZE"), "C09.multiple")
+    from engine.rules import AnyOf
+    require_guard(ctx, f, AnyOf(Has("len:a1", "const:*SHARE_SIZE", ["call:*is_multiple_of", "call:*Rem::rem"]),
+                                Cmp(["len:a1", "const:*SHARE_SIZE"], ["lit:0"], pass_op="Eq", local_only=True),
+                                name="payload length multiple of SHARE_SIZE"), "C09.multiple")
     ex = [x for x in exit_sites(f) if x["kind"] == "accept"]
     ok = bool(ex) and all(has_all(ctx.leaves(x["expr"]), ["call:*ExtendedDataSquare::from_ods"]) for x in ex)
     ctx.check(ok, "C09.returns-square", f.path, "the returned value is the square that was compared", key="C09.returns-square")
